@@ -233,6 +233,7 @@ mutual
       (wrapB (isAnd := false) (pOrList n ts)).bind fun a r =>
         match r with
         | .rpar :: r' => .ok [a] r'
+        | .comma :: .rpar :: r' => .ok [a] r'   -- a trailing comma
         | .comma :: r' => (pArgs1 n r').bind fun as r'' => .ok (a :: as) r''
         | _ => .fail
   def pAtom : Nat → List Tok → PR PyExpr
